@@ -81,6 +81,30 @@ def main():
                                         'cfg': {'lmtp': lmtp, 'pipelining': pipe, 'kind': 'smtp', 'deadline': 0, 'stages': stages},
                                         'ev': ev}, separators=(',', ':')) + '\n')
                     n += 1
+    # ---- an address listed more than once: every copy is answered alike by the peer, every position must get that answer
+    for lmtp in (False, True):
+        for addrs in ([0, 0, 1], [0, 1, 0], [0, 1, 1], [0, 0], [1, 0, 0, 1]):
+            nd = max(addrs) + 1
+            for combo in itertools.product([250, 450, 550], repeat=nd):
+                eods = itertools.product([250, 450, 550], repeat=nd) if lmtp else [None]
+                for combo2 in eods:
+                    for pipe in (False, True):
+                        idx += 1
+                        if idx % nshards != shard:
+                            continue
+                        if quick and lmtp and rnd.random() > 0.4:
+                            continue
+                        script = {'rcpt': [combo[a] for a in addrs]}
+                        if combo2:
+                            script['eod'] = [combo2[a] for a in addrs]
+                        r = rdrv.RelayRun(lmtp, pipe, [script])
+                        r.attempt(1, len(addrs), addrs=addrs)
+                        ev = r.run_to_end()
+                        stats['executions'] += 1
+                        f.write(json.dumps({'id': shard + n * nshards, 'cls': ('lmtp' if lmtp else 'smtp') + '-dupaddr',
+                                            'cfg': {'lmtp': lmtp, 'pipelining': pipe, 'kind': 'smtp', 'deadline': 0, 'stages': sorted(script)},
+                                            'ev': ev}, separators=(',', ':')) + '\n')
+                        n += 1
     # ---- pipe relays: real child processes with every exit status / output shape, both per-recipient modes
     import gevent
     from slimta.envelope import Envelope
